@@ -528,6 +528,27 @@ class C10(Suite):
                     tail = g.any_loop("d")
                     g.states[top]["edges"] = [["a", [["p", tail]]]]
                     top = g.new(k="D", init=top, rep=None, store=None, t=1)
+            elif x < 0.55:
+                # a dfa re-entered with a different repeat (0 leaves `current` where the last run ended)
+                fam = "reentry"
+                kf = g.field_template(0, 1, t=0)
+                sub = rng.random()
+                if sub < 0.5:
+                    b = g.new(k="i", t=1)
+                    a = g.new(k="i", t=0, edges=[["a", [["p", b]]]])
+                elif sub < 0.8:
+                    b = g.new(k="i", t=1)
+                    a = g.new(k="n", t=0, edges=[["a", [["p", b]]]])
+                else:
+                    a = g.graph(0)
+                xx = g.new(k="D", init=a, rep=["f", 0], store=None, t=int(rng.random() < 0.9),
+                           lim=g.spec() if rng.random() < 0.2 else None)
+                g.states[kf]["edges"] = [["e", [["p", xx]]]]
+                top = g.new(k="D", init=kf, rep=["c", rng.choice([2, 3, 4])], store=None, t=1)
+                data = bytes(v for _ in range(4) for v in [rng.choice([0, 0, 1, 2])] + [rng.choice(ALPHA)] * rng.choice([0, 2, 2, 4]))
+                yield {"op": "eng", "states": g.states, "top": top, "fam": fam,
+                       "chunks": split_chunks(rng, data[:rng.randint(0, len(data))])}
+                continue
             else:
                 fam = "random"
                 init = g.graph(rng.choice([0, 1, 1, 2]))
